@@ -22,7 +22,8 @@ Setup == << [x \in (DOMAIN CreateTable("T", <<>>)) \cup {"text", "params"} |->
                 IF x = "text" THEN "CREATE TABLE T (A INTEGER, B VARCHAR(20))" ELSE IF x = "params" THEN <<>>
                 ELSE CreateTable("T", << ColDef("A", "INTEGER"), ColDef("B", "VARCHAR(20)") >>)[x]] >>
 IntP == { I(0), I(1), I(-1), NULL }
-StrP == { S("a"), S("it's"), S("?"), S("a?b"), S(""), S("x' OR '1'='1"), S("a;b"), NULL }
+StrP == { S("a"), S("it's"), S("?"), S("a?b"), S(""), S("x' OR '1'='1"), S("a;b"), NULL,
+          S("NULL"), S("1") }        \* strings that PRINT like another parameter value (None, the integer 1)
 T == TableRef("T")
 With(act, text, params) == [x \in (DOMAIN act) \cup {"text", "params"} |-> IF x = "text" THEN text ELSE IF x = "params" THEN params ELSE act[x]]
 SelAB(w) == QueryA([BaseSel(T) EXCEPT !.star = FALSE, !.sel = <<SelItem(Col("A"), "A"), SelItem(Col("B"), "B")>>, !.where = w])
